@@ -176,6 +176,14 @@ def run(shard, ctx):
                 mon.check(t, tuple(s))
             if i == 0:
                 ctx.sample({"pattern": show(t), "sequence": "".join(s), "random": True})
+        # large patterns: "building a matcher terminates for every pattern" must not depend on patterns being small
+        for i in range(max(2, shard["rand"] // shard["parts"] // 12)):
+            t = R.random_tree(rng, rng.randint(30, 90), ALPHABET)
+            for _ in range(2):
+                s = tuple(rng.choice(ALPHABET) for _ in range(rng.randint(0, 6)))
+                ctx.count("cases.large_patterns")
+                ctx.distinct(["large", show(t), "".join(s)])
+                mon.check(t, s)
     finally:
         mon.close()
 
